@@ -365,6 +365,7 @@ func (eng *Engine) checkProperty(prop string, timeoutMs int, all bool, verbose b
 	sort.Strings(keys)
 	todo = append(todo, keys...)
 	checkLocks := prop == "C18"
+	var specFail []*Obligation
 	tExec := time.Now()
 	defer func() {
 		_ = tExec
@@ -394,11 +395,22 @@ func (eng *Engine) checkProperty(prop string, timeoutMs int, all bool, verbose b
 		if res.Panic != "" {
 			rep.EngineErrors = append(rep.EngineErrors, k+": "+res.Panic)
 		}
-		for _, s := range res.SpecErrors {
-			rep.EngineErrors = append(rep.EngineErrors, k+": "+s)
+		for i, s := range res.SpecErrors {
+			// The contract cannot be evaluated against this version of the
+			// function (a field, parameter or callee it names is gone): the
+			// clauses it carried cannot be established. Reported as a failed
+			// obligation, not as an engine error.
+			if i > 0 {
+				break
+			}
+			specFail = append(specFail, &Obligation{Name: k + "/contract:does-not-fit-the-code", Group: k + "/contract:does-not-fit-the-code", Kind: "contract", Func: k,
+				Pos: "-", Text: "the contract no longer fits the code: " + trunc(s, 300), Status: "spec-error", Solver: "-"})
 		}
 		for _, u := range res.Contracts {
-			if strings.HasPrefix(u, "lemma ") {
+			if strings.HasPrefix(u, "lemma ") || !all {
+				// quick tier: the functions that carry a clause of this
+				// property; thorough: plus every contract they rely on,
+				// transitively
 				continue
 			}
 			if uc := eng.specs.Funcs[u]; uc != nil && !uc.Assumed && !seen[u] {
@@ -433,6 +445,11 @@ func (eng *Engine) checkProperty(prop string, timeoutMs int, all bool, verbose b
 		}
 	}
 	rep.Infeasible = postVacuity(rep.All)
+	rep.All = append(rep.All, specFail...)
+	if sh := eng.shapeObligations(prop); len(sh) > 0 {
+		rep.Funcs = append(rep.Funcs, &FuncResult{Key: "shape", Obls: sh})
+		rep.All = append(rep.All, sh...)
+	}
 	known := loadKnownFindings()
 	led := loadLedger(prop)
 	for _, o := range rep.All {
